@@ -240,6 +240,11 @@ def op_cases(prog, mode="value", flavors=("ref", "ref+quantum", "noref", "money"
         cases.append(("R02.2", Q("__pow__"), f"Quantity**{n}", lambda c, n=n: qpow(c, Num(RF.const(n), "int")),
                       judge_product(lambda o, n=n: VAL(o, 0).pow_int(n),
                                     lambda o, n=n: _dims_sum(o.state, (T_of(o, 0), (n, 0))), mode=mode), {}))
+    for n in (1, 2):
+        cases.append(("R02.2", Q("__pow__"), f"Quantity**{n} [ref+quantum]",
+                      lambda c, n=n: qpow(c, Num(RF.const(n), "int"), "ref+quantum"),
+                      judge_product(lambda o, n=n: VAL(o, 0).pow_int(n),
+                                    lambda o, n=n: _dims_sum(o.state, (T_of(o, 0), (n, 0))), mode=mode), {}))
     cases.append(("R02.2", Q("__pow__"), "Quantity**Decimal", lambda c: qpow(c, c.num("k", "dec")), judge_notimpl, {}))
     for lbl, mk in (("str", lambda c: StrV(None, "text")), ("None", lambda c: NONE)):
         for nm in ("__mul__", "__truediv__"):
